@@ -533,6 +533,13 @@ class SqlImpl(TableImpl):
                 right_ast = verbs.Select(nd.right, reordered_cols)
                 right_table, right_query, right_sqa_expr = cls.compile_ast(right_ast, needed_cols)
 
+            # The row order of a union is unspecified, and an ORDER BY in an operand
+            # of a compound select is a syntax error on some dialects.
+            if query.limit is None:
+                query.order_by = []
+            if right_query.limit is None:
+                right_query.order_by = []
+
             # Build left and right select statements
             left_sel = cls.compile_query(table, query, sqa_expr)
             right_sel = cls.compile_query(right_table, right_query, right_sqa_expr)
